@@ -116,9 +116,21 @@ Holds(c, env, q, W) ==
                         ELSE \E j \in 1..Len(c.cs) : Holds(c.cs[j], env, q, W)
     [] c.k = "conj"  -> \A j \in 1..Len(c.cs) : Holds(c.cs[j], env, q, W)
     [] c.k = "forall" ->
+         \* for every value of the universal variable (restricted to the solutions of a sub-query, if it is one)
          LET us == {c.uv[i] : i \in 1..Len(c.uv)}
              as == Assign(q, W, us, 1, env)
-         IN \A j \in 1..Len(as) : Holds(c.c, as[j], q, W)
+         IN \A j \in 1..Len(as) : Side(c.ue, as[j], q, W) => Holds(c.c, as[j], q, W)
+
+\* C10 speaks about non-empty universal domains: is every for_all of the condition over a non-empty domain?
+RECURSIVE UniversalsNonEmpty(_, _, _)
+UniversalsNonEmpty(c, q, W) ==
+  CASE c.k = "forall" ->
+         LET us == {c.uv[i] : i \in 1..Len(c.uv)}
+             as == Assign(q, W, us, 1, [i \in 1..NSlots(q) |-> NoneV])
+         IN \E j \in 1..Len(as) : Side(c.ue, as[j], q, W)
+    [] c.k \in {"and", "or"} -> UniversalsNonEmpty(c.l, q, W) /\ UniversalsNonEmpty(c.r, q, W)
+    [] c.k = "not" -> UniversalsNonEmpty(c.c, q, W)
+    [] OTHER -> TRUE
 
 \* all full environments, in domain order (slot 1 outermost); bound slots
 \* hold a placeholder
